@@ -72,7 +72,11 @@ BbEvents == {<<"pullrequest:comment_created", "PullRequestJob">>, <<"pullrequest
              <<"repo:commit_status_created_inprogress", "">>, <<"repo:push", "">>, <<"repo:fork", "">>}
 GhEvents == {<<"pull_request:opened", "PullRequestJob">>, <<"pull_request:closed", "">>,
              <<"pull_request_review", "PullRequestJob">>, <<"status:success", "CommitJob">>,
-             <<"status:pending", "">>, <<"push", "">>, <<"ping", "">>}
+             <<"status:pending", "">>, <<"push", "">>, <<"ping", "">>,
+             \* a comment on a pull request / on a plain issue / on a pull request the host no longer knows
+             <<"issue_comment:pr", "PullRequestJob">>, <<"issue_comment:issue", "">>, <<"issue_comment:gone", "">>,
+             \* a check suite whose workflow runs are all completed / still running
+             <<"check_suite:completed", "CommitJob">>, <<"check_suite:running", "">>}
 HookOutcome(cred, repo, ev) ==
   IF cred # "right" \/ repo # "match" THEN [class |-> "refuse", job |-> ""]
   ELSE IF ev[2] = "" THEN [class |-> "ignore", job |-> ""]
